@@ -127,10 +127,16 @@ Proof.
 Qed.
 
 (* same environment: statics and allocator oracle are never changed by a command *)
-Definition same_env (m m' : mem) : Prop := statics m' = statics m /\ orc m' = orc m.
-Lemma same_env_refl m : same_env m m. Proof. split; reflexivity. Qed.
+Definition same_env (m m' : mem) : Prop := statics m' = statics m /\ orc m' = orc m /\ ext m' = ext m.
+Lemma same_env_refl m : same_env m m. Proof. repeat split; reflexivity. Qed.
 Lemma same_env_trans m1 m2 m3 : same_env m1 m2 -> same_env m2 m3 -> same_env m1 m3.
 Proof. unfold same_env. intuition congruence. Qed.
+Lemma same_env_quiet m m' : same_env m m' -> quiet m -> quiet m'.
+Proof. intros (_ & _ & E) Q k. rewrite E. apply Q. Qed.
+Lemma same_env_quiet_rev m m' : same_env m m' -> quiet m' -> quiet m.
+Proof. intros (_ & _ & E) Q k. rewrite <- E. apply Q. Qed.
+Lemma quiet_now m : quiet m -> ext_now m = 0.
+Proof. intros Q. apply Q. Qed.
 #[export] Hint Resolve same_env_refl : core.
 
 Lemma layout_ok c : c <= MAX_LEN -> layout_from_capacity c = Some (HDR + c).
@@ -166,11 +172,11 @@ Lemma allocate_ptr_wp c (Q : out (option bufid) -> mem -> Prop) m :
 Proof.
   intros Hc Hf Hs. unfold allocate_ptr. rewrite (layout_ok c Hc).
   apply wp_bind. unfold alloc. apply wp_alloc; intros Ho; apply wp_ret; unfold lift.
-  - apply wp_ret. apply Hf; [split; reflexivity|reflexivity|reflexivity].
+  - apply wp_ret. apply Hf; [repeat split; reflexivity|reflexivity|reflexivity].
   - apply wp_bind. unfold hdr_init.
     eapply wp_hdrinit; [cbn [m_alloc_ok heap]; apply lookup_last | reflexivity |].
     apply wp_ret. unfold lift. apply wp_ret.
-    apply Hs; [split; reflexivity| |reflexivity].
+    apply Hs; [repeat split; reflexivity| |reflexivity].
     cbn [set_buf heap m_alloc_ok]. rewrite upd_app_r. unfold mkbuf, fresh_buf, poison. cbn [asize data].
     replace (HDR + c - HDR) with c by lia. reflexivity.
 Qed.
@@ -317,12 +323,12 @@ Proof.
   - apply wp_bind. unfold hdr_cap. eapply wp_hdrcap; eauto. apply wp_ret. unfold lift.
     rewrite (layout_ok (cap x) Wc). apply wp_bind. unfold realloc.
     eapply wp_realloc; eauto; intros Ho; apply wp_ret; unfold lift.
-    + apply wp_ret. apply Hf; [split; reflexivity|reflexivity|reflexivity].
+    + apply wp_ret. apply Hf; [repeat split; reflexivity|reflexivity|reflexivity].
     + apply wp_bind. unfold hdr_init.
       eapply wp_hdrinit.
       * cbn [m_realloc_ok heap]. apply nth_error_upd_eq. eapply nth_error_lt; eauto.
       * reflexivity.
-      * apply wp_ret. unfold lift. apply wp_ret. apply Hs; [split; reflexivity| |reflexivity|exact Hle].
+      * apply wp_ret. unfold lift. apply wp_ret. apply Hs; [repeat split; reflexivity| |reflexivity|exact Hle].
         cbn [set_buf heap m_realloc_ok asize data].
         rewrite layout_size_no_wrap by exact Hle.
         replace (HDR + nc - HDR) with nc by lia.
@@ -340,15 +346,21 @@ Definition released (x : buf) : buf :=
   else {| live := true; asize := asize x; count := count x - 1; cap := cap x; data := data x |}.
 
 Lemma replace_inner_heap_wp b l other x (Q : out repr -> mem -> Prop) m :
-  nth_error (heap m) b = Some x -> live x = true -> buf_wf x ->
+  nth_error (heap m) b = Some x -> live x = true -> buf_wf x -> 1 <= count x ->
   (forall m', same_env m m' -> heap m' = upd (heap m) b (released x) -> nreq m' = nreq m -> Q (OVal other) m') ->
   wp (replace_inner (Heap b l) other) Q m.
 Proof.
-  intros Hb Hl (Wa & Wd & Wc) HQ. unfold replace_inner. apply wp_bind. unfold rmw.
+  intros Hb Hl (Wa & Wd & Wc) Hc1 HQ. unfold replace_inner. apply wp_bind. unfold rmw.
   eapply wp_rmw; eauto. apply wp_ret. unfold lift.
   assert (Hlt : (b < length (heap m))%nat) by (eapply nth_error_lt; eauto).
-  destruct (N.eqb_spec (count x) 1) as [E|E].
-  - apply wp_bind. unfold fence. apply wp_fence. apply wp_ret. unfold lift.
+  set (e := ext_now m).
+  destruct (N.eqb_spec (count x + e) 1) as [E|E].
+  - (* read 1: ours was the last reference anywhere *)
+    assert (E1 : count x = 1) by lia. assert (E0 : e = 0) by lia.
+    assert (Hlive : rmw_live false (count x) e = true).
+    { unfold rmw_live. rewrite E0. cbn [orb]. rewrite Bool.andb_false_r. reflexivity. }
+    rewrite Hlive.
+    apply wp_bind. unfold fence. apply wp_fence. apply wp_ret. unfold lift.
     apply wp_bind. unfold heap_dealloc. apply wp_bind. unfold hdr_cap.
     eapply wp_hdrcap.
     { cbn [logm set_buf heap]. apply nth_error_upd_eq. exact Hlt. }
@@ -359,14 +371,18 @@ Proof.
     { reflexivity. }
     { cbn [asize]. symmetry. exact Wa. }
     apply wp_ret. unfold lift. apply wp_ret.
-    apply HQ; [split; reflexivity| |reflexivity].
+    apply HQ; [repeat split; reflexivity| |reflexivity].
     cbn [set_buf logm heap asize count cap data]. unfold released.
-    apply N.eqb_eq in E. rewrite E. apply N.eqb_eq in E. rewrite E.
+    rewrite E1. cbn [N.eqb Pos.eqb].
     replace (1 - 1) with 0 by lia.
     clear - Hlt. revert b Hlt. induction (heap m) as [|y h IH]; intros [|b] Hlt; cbn in *; try lia; auto.
     f_equal. apply IH. lia.
-  - apply wp_ret. apply HQ; [split; reflexivity| |reflexivity].
-    cbn [set_buf heap]. unfold released. apply N.eqb_neq in E. rewrite E. reflexivity.
+  - apply wp_ret. apply HQ; [repeat split; reflexivity| |reflexivity].
+    cbn [set_buf heap]. unfold released, rmw_live. cbn [orb].
+    destruct (N.eqb_spec (count x) 1) as [E1|E1].
+    + (* our last reference, but foreign ones remain: the buffer leaves this world *)
+      assert (E0 : e <> 0) by lia. apply N.eqb_neq in E0. rewrite E0. cbn [negb andb]. rewrite E1. reflexivity.
+    + cbn [andb negb]. reflexivity.
 Qed.
 
 Lemma replace_inner_other_wp r other (Q : out repr -> mem -> Prop) m :
@@ -407,12 +423,18 @@ Section Abstract.
   Hypothesis Hb : nth_error (heap m) b = Some x.
   Hypothesis Hl : live x = true.
 
+  (* the uniqueness test: [true] only if this world holds exactly one reference and nobody else holds any; in a
+     quiet world it is exactly [count x =? 1] *)
   Lemma is_unique_wp (Q : out bool -> mem -> Prop) :
-    (forall m', same_env m m' -> heap m' = heap m -> nreq m' = nreq m -> Q (OVal (count x =? 1)) m') ->
+    1 <= count x ->
+    (forall m' u, same_env m m' -> heap m' = heap m -> nreq m' = nreq m ->
+                  (u = true -> count x = 1) -> (quiet m -> u = (count x =? 1)) -> Q (OVal u) m') ->
     wp (heap_is_unique b) Q m.
   Proof.
-    intros HQ. unfold heap_is_unique. apply wp_bind. unfold load. eapply wp_load; [exact Hb|exact Hl|]. apply wp_ret.
-    unfold lift. apply wp_ret. apply HQ; [split; reflexivity|reflexivity|reflexivity].
+    intros Hc1 HQ. unfold heap_is_unique. apply wp_bind. unfold load. eapply wp_load; [exact Hb|exact Hl|]. apply wp_ret.
+    unfold lift. apply wp_ret. apply HQ; [repeat split; reflexivity|reflexivity|reflexivity| |].
+    - intros E. apply N.eqb_eq in E. lia.
+    - intros Hq. rewrite (quiet_now m Hq). rewrite N.add_0_r. reflexivity.
   Qed.
   Lemma hdr_cap_wp (Q : out N -> mem -> Prop) : Q (OVal (cap x)) m -> wp (hdr_cap b) Q m.
   Proof. intros HQ. unfold hdr_cap. eapply wp_hdrcap; [exact Hb|exact Hl|]. apply wp_ret. exact HQ. Qed.
@@ -423,7 +445,7 @@ Section Abstract.
     wp (read (PHeap b) off n) Q m.
   Proof.
     intros Hin HQ. unfold read. eapply wp_read; [exact Hb|exact Hl|exact Hin|]. apply wp_ret.
-    apply HQ; [split; reflexivity|reflexivity|reflexivity].
+    apply HQ; [repeat split; reflexivity|reflexivity|reflexivity].
   Qed.
   Lemma write_heap_wp off bs (Q : out unit -> mem -> Prop) :
     off + len bs <= len (data x) ->
@@ -432,7 +454,7 @@ Section Abstract.
     wp (write (PHeap b) off bs) Q m.
   Proof.
     intros Hin HQ. unfold write. eapply wp_write; [exact Hb|exact Hl|exact Hin|]. apply wp_ret.
-    apply HQ; [split; reflexivity| |reflexivity]. cbn [set_buf heap]. unfold with_data. rewrite Hl. reflexivity.
+    apply HQ; [repeat split; reflexivity| |reflexivity]. cbn [set_buf heap]. unfold with_data. rewrite Hl. reflexivity.
   Qed.
   Lemma move_heap_wp src dst n (Q : out unit -> mem -> Prop) :
     src + n <= len (data x) -> dst + n <= len (data x) ->
@@ -442,7 +464,7 @@ Section Abstract.
     wp (move (PHeap b) src dst n) Q m.
   Proof.
     intros H1 H2 HQ. unfold move. eapply wp_move; [exact Hb|exact Hl|exact H1|exact H2|]. apply wp_ret.
-    apply HQ; [split; reflexivity| |reflexivity]. cbn [set_buf heap]. unfold with_data. rewrite Hl. reflexivity.
+    apply HQ; [repeat split; reflexivity| |reflexivity]. cbn [set_buf heap]. unfold with_data. rewrite Hl. reflexivity.
   Qed.
 End Abstract.
 
@@ -453,7 +475,7 @@ Lemma read_static_wp m s t off n (Q : out (list N) -> mem -> Prop) :
   wp (read (PStatic s) off n) Q m.
 Proof.
   intros Hs Hin HQ. unfold read. eapply wp_read_static; [exact Hs|exact Hin|]. apply wp_ret.
-  apply HQ; [split; reflexivity|reflexivity|reflexivity].
+  apply HQ; [repeat split; reflexivity|reflexivity|reflexivity].
 Qed.
 
 (* a unique buffer whose data changes (same length): invariant and frame *)
